@@ -26,6 +26,7 @@ type bucket struct {
 	tokens     int
 	lastRefill time.Time
 	mutex      sync.Mutex // Only lock when modifying tokens
+	reclaimed  bool       // set by cleanup, under mutex, when the bucket is dropped from the map
 }
 
 // NewTokenBucketRateLimiter creates a new token bucket rate limiter
@@ -45,20 +46,33 @@ func NewTokenBucketRateLimiter(maxTokens int, refillRate time.Duration) *TokenBu
 
 // Allow checks if a request from the given client IP is allowed with optimized locking
 func (rl *TokenBucketRateLimiter) Allow(clientIP string) bool {
-	b := rl.getOrCreateBucket(clientIP)
+	for {
+		// The bucket may be reclaimed by cleanup between the lookup and the lock: a client must never
+		// spend from a bucket that is no longer its own (it would get a second, full one as well).
+		if allowed, decided := rl.spend(rl.getOrCreateBucket(clientIP)); decided {
+			return allowed
+		}
+	}
+}
 
+// spend takes one token from b if there is one; decided is false when b has been reclaimed
+func (rl *TokenBucketRateLimiter) spend(b *bucket) (allowed, decided bool) {
 	b.mutex.Lock()
 	defer b.mutex.Unlock()
+
+	if b.reclaimed {
+		return false, false
+	}
 
 	rl.refillTokens(b)
 
 	// Check if we have tokens available
 	if b.tokens > 0 {
 		b.tokens--
-		return true
+		return true, true
 	}
 
-	return false
+	return false, true
 }
 
 // getOrCreateBucket retrieves or creates a bucket for the client IP
@@ -126,13 +140,14 @@ func (rl *TokenBucketRateLimiter) cleanup() {
 		ip := key.(string)
 		b := value.(*bucket)
 
+		// Dropped and marked in one critical section: whoever looked the bucket up earlier sees the
+		// mark once it gets the lock, and looks again
 		b.mutex.Lock()
-		shouldDelete := rl.reclaimable(b, now)
-		b.mutex.Unlock()
-
-		if shouldDelete {
+		if rl.reclaimable(b, now) {
+			b.reclaimed = true
 			rl.buckets.Delete(ip)
 		}
+		b.mutex.Unlock()
 		return true // continue iteration
 	})
 }
